@@ -78,6 +78,33 @@ BASES = [
     ('\\lstset{', '} A'),
     ('\\textcolor{', '}{B} C \\href{u}{V}'),
     ('A "', ' B'),
+    ('\\newcommand{\\foo}{', '} \\foo A'),
+    ('\\renewcommand*{\\foo}[1]{', '} \\foo{A}\\foo B'),
+]
+
+# repetitions: pre . unit^n . post with a symbolic count n (counters, label generators,
+# rotating collections, nesting depth)
+REPS = [
+    ('\\begin{enumerate}', '\\item x ', '\\end{enumerate}', 60),
+    ('\\begin{enumerate}\\item\\begin{enumerate}', '\\item x ', '\\end{enumerate}\\end{enumerate}', 60),
+    ('\\begin{enumerate}\\item\\begin{enumerate}\\item\\begin{enumerate}', '\\item x ',
+     '\\end{enumerate}\\end{enumerate}\\end{enumerate}', 60),
+    ('\\begin{itemize}', '\\item x ', '\\end{itemize}', 40),
+    ('', '\\begin{enumerate}\\item x ', 'A', 12),
+    ('', '\\begin{itemize}\\item x ', 'A', 12),
+    ('A ', '$x$ ', 'B', 40),
+    ('A ', '\\[ y \\] ', 'B', 40),
+    ('\\begin{align} a', ' &= b \\\\ c', '\\end{align}', 40),
+    ('A ', '\\foreignlanguage{german}{x} ', 'B', 40),
+    ('A', '\\footnote{f}', ' B', 30),
+    ('A ', '{', ' B', 40),
+    ('A ', '\\textbf{', ' B', 40),
+    ('A ', '}', ' B', 10),
+    ('\\newcommand{\\foo}[1]{<#1>}A ', '\\foo', ' B C', 20),
+    ('A ', '\\"', 'a B', 8),
+    ('A ', '-', ' B', 12),
+    ('A ', "'", ' B', 12),
+    ('A ', '\\gls{ab}', ' B', 20),
 ]
 
 
@@ -118,6 +145,8 @@ def items(tier, seed):
             for first in range(len(SYNTAX)):
                 out.append({'h': 'hole', 'b': bi, 'L': 3, 'first': first, 'cost': 24 ** 2,
                             'budget': 3000})
+    for ri in range(len(REPS)):
+        out.append({'h': 'rep', 'r': ri, 'cost': REPS[ri][3]})
     per = 3 if tier == 'quick' else 12
     for name, S, o in skeletons.malformed(seed + 5, per):
         out.append({'h': 'trunc', 'name': name, 'S': S, 'opts': dict(o), 'ml': False})
@@ -148,6 +177,8 @@ def build(item):
         return build_hole(item, twin)
     if h == 'prefix':
         return build_prefix(item)
+    if h == 'rep':
+        return build_rep(item)
     S = item['S']
     pre_ok, suf_ok = srcmodel.rebase_ok(S, nosp=bool(item['opts'].get('nosp')))
     prop, conc = offrun.make(S, item['opts'], item['ml'], None, pre_ok, suf_ok, exit_ok=True)
@@ -161,7 +192,7 @@ def build(item):
 
 
 SYNTAX = ['{', '}', '[', ']', '\\', '%', '#', '$', '&', '~', '^', '_', '=', ',', '-', '"', "'", '`',
-          ' ', '\n', 'a', '1', '*', '|']
+          ' ', '\n', 'a', '1', '*', '|', '0']
 
 
 def build_hole(item, twin):
@@ -213,6 +244,38 @@ def build_hole(item, twin):
     def concrete(w):
         idx = [w['a'], w['b'], w['c']]
         return run(idx) if pre_ok(idx) else None
+    return prop, concrete
+
+
+def build_rep(item):
+    pre, unit, post, N = REPS[item['r']]
+    opts = base_opts(pre + unit + post)
+    if 'gls' in unit:
+        pre = '\\gls@defglossaryentry{ab}{name={AB},text={ab}}' + pre
+
+    def run(n):
+        doc = pre + unit * n + post
+
+        def go(_w):
+            for ml in (False, True):
+                try:
+                    yal.run_native(doc, yal.mkopts(opts), ml)
+                except SystemExit:
+                    pass
+            return None
+        r = harness.native_guarded(go, {'doc': doc}, 30)
+        return ('C07 ' + str(r)) if r is not None else None
+
+    def prop(n: int):
+        from vf import driver as D
+        if not (0 <= n <= N):
+            return D.SKIP
+        nn = list(range(N + 1))[n]
+        with D.NoTracing():
+            return run(int(nn)) or True
+
+    def concrete(w):
+        return run(w['n']) if 0 <= w['n'] <= N else None
     return prop, concrete
 
 
